@@ -36,8 +36,10 @@ RULE = ("schedules over {async_subscribe(svc) started, NOTIFY arrives, SUBSCRIBE
         "subscribe, for EVERY assignment of a non-empty subset of two variables and of a SID to each NOTIFY — k<=2 with SIDs {service "
         "0's, service 1's, never granted}, k=3 with SIDs {service 0's, never granted} (quick: one NOTIFY fewer, k=2 for service 0's SID "
         "only); every SEQUENCE (with repetition: A-B-A, A-A-B, A-B-B-A) of k<=3 (thorough 4) bodies over a 4-body alphabet as byte-identical "
-        "early NOTIFYs at every response position, the same bodies for two SIDs; "
-        "plus random schedules over 1..3 services with refused / unreachable / SID-less responses, invalid headers and values, "
+        "early NOTIFYs at every response position, the same bodies for two SIDs; every enumerated schedule once with plain SIDs and once "
+        "more with device-style SIDs (upper-case hex, mixed case, digits, '_', '-') or with three SIDs that differ ONLY in case (two "
+        "granted to different subscriptions, one never granted: events go to exactly the verbatim SID); "
+        "plus random schedules over 1..3 services (SIDs plain / random over that alphabet / random case variants of one SID) with refused / unreachable / SID-less responses, invalid headers and values, "
         "verbatim repeats; "
         "after every event the status / returned value and every variable of every service are compared and judged. "
         "non-trivial = at least one NOTIFY arrived before the response that granted its SID")
@@ -280,6 +282,58 @@ def same(sid, kids):
 
 
 # bodies over a two-letter value alphabet per variable: sequences WITH repetition (A-B-A, A-A-B, A-B-B-A …)
+# SIDs as devices spell them: upper-case hex, mixed case, digits, '_' and '-'.  A SID is an opaque token: events are routed to exactly
+# the SID the SUBSCRIBE response spelled, never to a case variant of it.  Every enumerated schedule is run once with the plain SIDs
+# and once more with one of these spellings (the structure of the schedule is unchanged, only the three SID strings are renamed).
+SID_STYLES = [
+    # realistic, unrelated
+    {S0: "uuid:4C49-aB_7x", S1: "uuid:RINCON_000E58A1B2C301400_sub0000000042", S9: "uuid:Never-9F"},
+    # the three SIDs differ ONLY in case: two subscriptions granted case variants of each other, a third variant never granted
+    {S0: "uuid:AbCd-01_x", S1: "uuid:abcd-01_X", S9: "UUID:ABCD-01_X"},
+    {S0: "uuid:abcd-01_x", S1: "uuid:ABCD-01_X", S9: "uuid:Abcd-01_x"},
+]
+SID_ALPHABET = "ABCDEFabcdef0123456789RINCONrincon_-"
+
+
+def with_sids(recipe, style):
+    """the same schedule with its SIDs renamed (NOTIFY headers and SUBSCRIBE responses alike)"""
+    ops = []
+    for op in recipe["ops"]:
+        op = list(op)
+        if op[0] == "notify" and op[3] in style:
+            op[3] = style[op[3]]
+        elif op[0] == "respond" and op[2][0] == "resp" and op[2][2] in style:
+            op[2] = [op[2][0], op[2][1], style[op[2][2]], op[2][3]]
+        ops.append(op)
+    return dict(recipe, ops=ops)
+
+
+def rand_sids(rng, n):
+    """n + 1 distinct SIDs (the last one is never granted): plain, realistic, or case variants of ONE realistic SID"""
+    c = rng.randrange(4)
+    if c == 0:
+        return [f"uuid:s{i}" for i in range(n)] + [S9]
+    base = "uuid:" + "".join(rng.choice(SID_ALPHABET) for _ in range(rng.randrange(4, 25)))
+    if c == 1 or not any(ch.isalpha() for ch in base[5:]):
+        out = []
+        while len(out) < n + 1:
+            sid = "uuid:" + "".join(rng.choice(SID_ALPHABET) for _ in range(rng.randrange(4, 25)))
+            if sid not in out:
+                out.append(sid)
+        return out
+    out = [base]
+    for _ in range(200):
+        if len(out) == n + 1:
+            break
+        v = "".join(ch.upper() if rng.randrange(2) else ch.lower() for ch in base)
+        if v not in out:
+            out.append(v)
+    while len(out) < n + 1:
+        out.append(base + "-" + str(len(out)))
+    rng.shuffle(out)
+    return out
+
+
 REP_BODIES = [[["", "A", "10"]], [["", "A", "20"]], [["", "A", "10"], ["", "B", "x"]], [["", "B", "y"]]]
 
 
@@ -382,7 +436,8 @@ def rand_recipe(rng):
     for _ in range(nsvc):
         names = rng.sample(NAMES, rng.randrange(1, 4))
         svc_vars.append([dict(rng.choice(KINDS), name=n) for n in names])
-    sids = [f"uuid:s{i}" for i in range(nsvc)] + [S9]
+    sids = rand_sids(rng, nsvc)
+    never = sids[-1]
     ops = []
     pending_resp = []
     for i in range(nsvc):
@@ -401,7 +456,7 @@ def rand_recipe(rng):
     events = list(pending_resp)
     for j in range(rng.randrange(1, 9)):
         sid = rng.choice(sids)
-        i = sids.index(sid) if sid != S9 else rng.randrange(nsvc)
+        i = sids.index(sid) if sid != never else rng.randrange(nsvc)
         decls = svc_vars[i]
         pool = list(decls)
         rng.shuffle(pool)
@@ -461,6 +516,15 @@ CORPUS = [
              same(S0, [["", "A", "10"]]), same(S0, [["", "A", "10"]])]},
     {"ops": [["start", 0, 1800], ["start", 1, 1800], same(S0, [["", "A", "10"]]), same(S1, [["", "A", "10"]]), same(S0, [["", "A", "20"]]),
              same(S1, [["", "A", "20"]]), same(S0, [["", "A", "10"]]), grant(1, S1), same(S1, [["", "A", "10"]]), grant(0, S0)]},
+    # batch 5: SIDs are opaque tokens.  An upper-case SID with early NOTIFYs (a backlog filed under a case-folded key is never replayed)
+    {"ops": [["start", 0, 1800], notify("uuid:4C49-RINCON_0", [["", "A", "1"], ["", "B", "x"]]), notify("uuid:4C49-RINCON_0", [["", "A", "2"]]),
+             grant(0, "uuid:4C49-RINCON_0"), notify("uuid:4C49-RINCON_0", [["", "C", "yes"]])]},
+    # two subscriptions whose SIDs differ only in case, a third variant never granted: each event reaches exactly its verbatim SID
+    {"ops": [["start", 0, 1800], ["start", 1, 1800], notify("uuid:AbC", [["", "A", "1"]]), notify("uuid:abc", [["", "A", "2"]]),
+             notify("uuid:ABC", [["", "A", "3"]]), grant(1, "uuid:abc"), notify("uuid:AbC", [["", "B", "zero"]]), grant(0, "uuid:AbC"),
+             notify("uuid:abc", [["", "B", "one"]]), notify("uuid:ABC", [["", "B", "none"]]), notify("uuid:AbC", [["", "A", "4"]])]},
+    {"ops": [["start", 0, 1800], notify("uuid:abc", [["", "A", "1"]]), notify("uuid:ABC", [["", "A", "2"]]), grant(0, "uuid:ABC"),
+             notify("uuid:abc", [["", "A", "3"]]), ["start", 1, 600], notify("uuid:abc", [["", "B", "late"]]), grant(1, "uuid:Abc")]},
     # early NOTIFY with bad headers is not stored
     {"ops": [["start", 0, 1800], notify(S0, [["", "A", "1"]], nt=None), notify(S0, [["", "A", "2"]], nts="x"), notify(None, [["", "A", "3"]]), grant(0, S0)]},
 ]
@@ -501,6 +565,8 @@ def run_many(recipes: List[dict], prefix: str) -> List[Case]:
 def generate(ctx: Ctx) -> List[Case]:
     cases = [run_recipe(ctx, rec, f"corpus{i}") for i, rec in enumerate(CORPUS + [dict(r, via="server") for r in CORPUS])]
     recipes = exhaustive(ctx) + repeated(ctx)
+    # every enumerated schedule once more with device-style SIDs / SIDs that differ only in case
+    recipes += [with_sids(r, SID_STYLES[i % len(SID_STYLES)]) for i, r in enumerate(recipes)]
     n_random = 4000 if ctx.thorough else 300
     recipes += [rand_recipe(ctx.rng) for _ in range(n_random)]
     # a third of the schedules deliver every NOTIFY through AiohttpNotifyServer._handle_request, a third every other one
